@@ -5,6 +5,7 @@ import OptreeModel.Model.Compare
 import OptreeModel.Lemmas.EncPrefix
 import OptreeModel.Lemmas.EncFlatten
 import OptreeModel.Lemmas.UpToPrefix
+import OptreeModel.Lemmas.PrefixOrder
 
 namespace Optree
 
@@ -229,6 +230,37 @@ theorem C07_flatten_up_to_agrees_with_is_prefix_global (cfg : Cfg) (hp : cfg.pre
   rcases flatten_ns cfg p lp sp h1 with h | h
   · exact h
   · rw [h, hns]
+
+/-! ### order laws -/
+
+/-- `spec <= spec` -/
+theorem C07_is_prefix_refl (a : STree) (ha : a.wf = true) (nil : Bool) (ns : String) :
+    isPrefix (a.spec nil ns) (a.spec nil ns) false = .ok true := by
+  rw [C07_is_prefix_iff a a ha ha, STree.prefixB_refl a ha]
+
+/-- **`<=` on treespecs is transitive** (same options): through any chain of dict kinds and key orders -/
+theorem C07_is_prefix_trans (a b c : STree) (ha : a.wf = true) (hb : b.wf = true) (hc : c.wf = true)
+    (nil : Bool) (ns : String)
+    (h1 : isPrefix (a.spec nil ns) (b.spec nil ns) false = .ok true)
+    (h2 : isPrefix (b.spec nil ns) (c.spec nil ns) false = .ok true) :
+    isPrefix (a.spec nil ns) (c.spec nil ns) false = .ok true := by
+  rw [C07_is_prefix_iff a b ha hb] at h1
+  rw [C07_is_prefix_iff b c hb hc] at h2
+  rw [C07_is_prefix_iff a c ha hc]
+  simp only [Except.ok.injEq] at h1 h2 ⊢
+  exact STree.prefixB_trans a ha b hb c hc h1 h2
+
+/-- `a <= b` and `b <= a` force equal node counts (the shapes then differ at most in dict kind / key
+order / deque maxlen), and then neither is a *strict* prefix of the other -/
+theorem C07_is_prefix_antisymm (a b : STree) (ha : a.wf = true) (hb : b.wf = true) (nil : Bool) (ns : String)
+    (h1 : isPrefix (a.spec nil ns) (b.spec nil ns) false = .ok true)
+    (h2 : isPrefix (b.spec nil ns) (a.spec nil ns) false = .ok true) :
+    (a.spec nil ns).numNodes = (b.spec nil ns).numNodes := by
+  rw [C07_is_prefix_iff a b ha hb] at h1
+  rw [C07_is_prefix_iff b a hb ha] at h2
+  simp only [Except.ok.injEq] at h1 h2
+  rw [STree.spec_numNodes, STree.spec_numNodes]
+  exact STree.prefixB_antisymm_size a b ha hb h1 h2
 
 /-- non-vacuity, on the witness of the repaired defect: `OD(a=OD(x=*,y=*), b=*)` is a prefix of
 `OD(b=*, a=OD(y=(*,), x=*))` (outer and inner dict both re-ordered, unequal sub-tree sizes) -/
